@@ -33,6 +33,11 @@ def field_linear_time(inp):
     return {'violates': bool(bad), 'detail': bad[:3], 'field_eom': 'f(t, states, a) = t'}
 
 
+def mean_field_shift(inp):
+    from replay.c15 import mean_field_shift as f
+    return f(inp)
+
+
 def field_free_reduces_to_tempo(inp):
     """a system that ignores the field, with an EXPLICITLY time dependent Hamiltonian and start_time != 0: MeanFieldTempo must
     give the states of plain Tempo (same propagators at the same times)"""
@@ -58,5 +63,29 @@ def field_free_reduces_to_tempo(inp):
     return {'violates': dev > 1e-9, 'max deviation MeanFieldTempo vs Tempo': dev}
 
 
+def lindbladian(inp):
+    """system._liouvillian against  -i[H, rho] + g (A rho A^+ - 1/2 {A^+ A, rho})  on random matrices"""
+    import numpy as np
+    from oqupy.system import _liouvillian
+    rng = np.random.default_rng(4)
+    bad = []
+    for d in (2, 3):
+        h = rng.normal(size=(d, d)) + 1j * rng.normal(size=(d, d))
+        H = h + h.conj().T
+        A = rng.normal(size=(d, d)) + 1j * rng.normal(size=(d, d))
+        B = rng.normal(size=(d, d)) + 1j * rng.normal(size=(d, d))
+        rho = rng.normal(size=(d, d)) + 1j * rng.normal(size=(d, d))
+        g1, g2 = 0.3, 0.7
+        L = _liouvillian(H, [g1, g2], [A, B])
+        want = -1j * (H @ rho - rho @ H)
+        for g, X in ((g1, A), (g2, B)):
+            Xd = X.conj().T
+            want = want + g * (X @ rho @ Xd - 0.5 * (Xd @ X @ rho + rho @ Xd @ X))
+        dev = float(np.abs((L @ rho.reshape(-1)).reshape(d, d) - want).max())
+        if dev > 1e-12:
+            bad.append({'dimension': d, 'deviation': dev})
+    return {'violates': bool(bad), 'detail': bad}
+
+
 # thorough tier (bounded native sweeps): (function, inputs, obligation of the open finding it reproduces or None)
-THOROUGH = [('field_linear_time', {}, None), ('field_free_reduces_to_tempo', {}, None)]
+THOROUGH = [('lindbladian', {}, None), ('field_linear_time', {}, None), ('field_free_reduces_to_tempo', {}, None)]
